@@ -12,7 +12,7 @@ REPO = os.environ.get("VERIF_REPO", "/repo")
 # stages marked supplementary: a violation there fails the check like any other, but an
 # inconclusive supplementary stage (tool could not run, budget exhausted) is only recorded in the
 # evidence: the deciding oracle of those properties is the native monitor
-SUPPLEMENTARY = {"miri", "nohooks", "stdbuild", "constrained", "fvbuild", "fuzz"}
+SUPPLEMENTARY = {"miri", "nohooks", "stdbuild", "constrained", "fvbuild", "fuzz", "dbgassert"}
 
 # coverage-guided fuzzing (libFuzzer + AddressSanitizer through cargo-fuzz), thorough tier:
 # property -> (fuzz target, seconds)
@@ -20,17 +20,17 @@ FUZZ = {"C02": ("verify_diff", 420), "C06": ("verify_diff", 420), "C11": ("sign_
 ALG_ORDER = ["sha256_256", "sha256_192", "sha256_128", "shake256_256", "shake256_192", "shake256_128"]
 
 PROPS = {
-    "C01": {"level": "exploration", "stages": ["native", "constrained", "fvbuild"]},
-    "C02": {"level": "exploration", "stages": ["native", "nohooks", "fvbuild"], "thorough_extra": ["fuzz"]},
+    "C01": {"level": "exploration", "stages": ["native", "constrained", "fvbuild"], "thorough_extra": ["dbgassert"]},
+    "C02": {"level": "exploration", "stages": ["native", "nohooks", "fvbuild"], "thorough_extra": ["fuzz", "dbgassert"]},
     "C03": {"level": "exploration", "stages": ["native", "fvbuild"]},
     "C04": {"level": "fault_enumeration", "stages": ["native", "fvbuild"]},
     "C05": {"level": "exploration", "stages": ["native"]},
-    "C06": {"level": "exploration", "stages": ["native", "nohooks", "constrained", "miri"], "thorough_extra": ["fuzz"]},
+    "C06": {"level": "exploration", "stages": ["native", "nohooks", "constrained", "miri"], "thorough_extra": ["fuzz", "dbgassert"]},
     "C07": {"level": "exploration", "stages": ["native", "fvbuild"]},
     "C08": {"level": "exploration", "stages": ["native", "constrained"]},
     "C09": {"level": "exploration", "stages": ["native", "fvbuild"]},
     "C10": {"level": "exploration", "stages": ["native", "constrained"]},
-    "C11": {"level": "fault_enumeration", "stages": ["native", "nohooks", "constrained", "miri"], "thorough_extra": ["fuzz"]},
+    "C11": {"level": "fault_enumeration", "stages": ["native", "nohooks", "constrained", "miri"], "thorough_extra": ["fuzz", "dbgassert"]},
     "C12": {"level": "exploration", "stages": ["native"], "thorough_extra": ["miri"]},
     "C13": {"level": "exploration", "stages": ["native"]},
     "C14": {"level": "exploration", "stages": ["c14"]},
@@ -332,6 +332,22 @@ class Run:
             kept = sorted(os.listdir(cdir))[:2] if os.path.isdir(cdir) else []
             doc["samples"] = [{"fuzz_input_hex": open(os.path.join(cdir, k), "rb").read()[:120].hex()} for k in kept]
         return doc
+
+    def stage_dbgassert(self):
+        """the same driver in the release profile with debug assertions ON (the library's and its
+        dependencies' debug_assert!s then fire on the same workloads)"""
+        target = os.path.join(self.harness, "target-dbgassert")
+        code, out = sh(["cargo", "build", "--profile", "dbgassert", "--offline", "-p", "hbsmon", "--target-dir", target], cwd=self.harness, timeout=1800)
+        if code != 0:
+            return {"inconclusive": ["build with debug assertions failed: " + out[-400:]]}
+        res = os.path.join(self.results, f"{self.prop}-dbgassert.json")
+        if os.path.exists(res):
+            os.remove(res)
+        env = dict(self.env); env["VERIF_TIER"] = "quick"
+        c, text = sh([os.path.join(target, "dbgassert", "hbsmon"), self.prop, "--tier", "quick", "--seed", str(self.seed + 2), "--out", res], cwd=self.root, env=env, timeout=WATCHDOG[self.tier])
+        if c != 0 or not os.path.exists(res):
+            return {"inconclusive": [f"driver of the debug-assertions build failed (exit {c}): " + text[-400:]]}
+        return json.load(open(res))
 
     def stage_stdbuild(self):
         """the same driver against the library built with its `std` feature (the configuration in
